@@ -55,12 +55,12 @@ def rabs (q : Rat) : Rat := if q < 0 then -q else q
 
 def handle (op : String) (args : List String) : Option String :=
   match op with
-  | "sched_gs" => withArgs (do let v ← pNat; let f ← pNat; let nt ← pNat; let A ← pCRS; let rhs ← pVec; let x ← pVec; pure (v, f, nt, A, rhs, x)) args
-      fun (v, f, nt, A, rhs, x) =>
-        if !(flag v && flag f && ntOk nt && square A && rhs.size == A.nrows && x.size == A.nrows) then badInput else
+  | "sched_gs" | "sched_gs_asis" => withArgs (do let f ← pNat; let nt ← pNat; let A ← pCRS; let rhs ← pVec; let x ← pVec; pure (f, nt, A, rhs, x)) args
+      fun (f, nt, A, rhs, x) =>
+        if !(flag f && ntOk nt && square A && rhs.size == A.nrows && x.size == A.nrows) then badInput else
         let fwd := f == 1
         let pat := pattern A
-        let level := if v == 1 then gsLevelsAsIs fwd pat else gsLevels fwd pat
+        let level := if op == "sched_gs_asis" then gsLevelsAsIs fwd pat else gsLevels fwd pat
         schedOut fwd pat level nt (gsRow A rhs) (gsSerialSweep fwd A rhs x) x
   | "sched_ilu" => withArgs (do let lo ← pNat; let nt ← pNat; let A ← pCRS; let D ← pVec; let x ← pVec; pure (lo, nt, A, D, x)) args
       fun (lo, nt, A, D, x) =>
@@ -85,11 +85,11 @@ def handle (op : String) (args : List String) : Option String :=
         if !(ntOk nt && square A && f.size == A.nrows && A.sortedb
              && (List.range A.nrows).all fun i => (A.row i).any fun cv => cv.1 == i && cv.2 != 0) then badInput else
         "same"     -- the model's prediction: ILU(0) application does not depend on the thread count
-  | "sched_exh" => withArgs (do let v ← pNat; let f ← pNat; let nt ← pNat; let n ← pNat; let lo ← pNat; let hi ← pNat; pure (v, f, nt, n, lo, hi)) args
-      fun (v, f, nt, n, lo, hi) =>
-        if !(flag v && flag f && ntOk nt && n ≤ 6 && exhBits n 0 ≤ 30 && lo ≤ hi && hi ≤ 2 ^ exhBits n 0) then badInput else
+  | "sched_exh" | "sched_exh_asis" => withArgs (do let f ← pNat; let nt ← pNat; let n ← pNat; let lo ← pNat; let hi ← pNat; pure (f, nt, n, lo, hi)) args
+      fun (f, nt, n, lo, hi) =>
+        if !(flag f && ntOk nt && n ≤ 6 && exhBits n 0 ≤ 30 && lo ≤ hi && hi ≤ 2 ^ exhBits n 0) then badInput else
         let fwd := f == 1
-        exhRun (if v == 1 then gsLevelsAsIs fwd else gsLevels fwd) fwd n lo hi 0
+        exhRun (if op == "sched_exh_asis" then gsLevelsAsIs fwd else gsLevels fwd) fwd n lo hi 0
   | "sched_exh_ilu" => withArgs (do let f ← pNat; let nt ← pNat; let n ← pNat; let lo ← pNat; let hi ← pNat; pure (f, nt, n, lo, hi)) args
       fun (f, nt, n, lo, hi) =>
         if !(flag f && ntOk nt && n ≤ 6 && lo ≤ hi && hi ≤ 2 ^ exhBits n 1) then badInput else
